@@ -137,6 +137,8 @@ class C12(Check):
         # a second writer holds the database's write lock now and then while recording (another gallia process recording into the
         # same file), always for less than the handler's busy timeout: the rows must come out in the order of the requests
         rng6 = rng_for(seed, "C12-db-busy", index)
+        # the same tester comes back after more than 10 s of silence (the ECU is in its default state again) and asks everything once more
+        plan["second_pass"] = rng6.random() < 0.25
         plan["db_busy"] = [[round(rng6.uniform(0.0, 3.0), 3), rng6.choice([0.05, 0.5, 3.0])] for _ in range(rng6.choice([1, 3]))] if rng6.random() < 0.2 else []
         plan["net_seed"] = rng.getrandbits(30)
         return plan
@@ -343,6 +345,7 @@ class C12(Check):
         world.uninstall()
         world2.install()
         replies: list[Any] = []
+        replies2: list[Any] = []
         states: list[Any] = []
         try:
             async def replay() -> None:
@@ -367,6 +370,16 @@ class C12(Check):
                         replies.append(rep)
                         states.append(None)
                         await asyncio.sleep(plan.get("replay_pace", 0.01))
+                    if plan.get("second_pass"):
+                        await asyncio.sleep(11.0)
+                        for row in rows:
+                            await c.write(bytes.fromhex(row[1]))
+                            try:
+                                rep = await c.read(timeout=0.5)
+                            except TimeoutError:
+                                rep = None
+                            replies2.append(rep)
+                            await asyncio.sleep(plan.get("replay_pace", 0.01))
                     await c.close()
                     return
                 server = DBUDSServer(dbpath, ename, props)
@@ -377,6 +390,12 @@ class C12(Check):
                     rep, _ = await st.handle_request(bytes.fromhex(row[1]))
                     replies.append(rep)
                     await asyncio.sleep(plan.get("replay_pace", 0.01))
+                if plan.get("second_pass"):
+                    await asyncio.sleep(11.0)
+                    for row in rows:
+                        rep, _ = await st.handle_request(bytes.fromhex(row[1]))
+                        replies2.append(rep)
+                        await asyncio.sleep(plan.get("replay_pace", 0.01))
                 await server.teardown()
 
             out2 = world2.run_cli(replay, vcap=20000.0, stepcap=5_000_000)
@@ -413,6 +432,15 @@ class C12(Check):
                           f"row {i}: request {row[1]} recorded reply {row[2]} but the database-backed ECU answered {got.hex() if isinstance(got, bytes) else got} (selection {select}, {len(recs)} recordings)")
                 break
             prev_silent = want is None
+        if plan.get("second_pass") and not res["violations"] and len(replies2) == len(rows):
+            bump(res["probes"], "sequence_replayed_a_second_time_after_the_inactivity_reset")
+            for i, row in enumerate(rows):
+                want = bytes.fromhex(row[2]) if row[2] is not None else None
+                if replies2[i] != want:
+                    violation(res, "C12/replay", f"C12/replay-differs:{cfgname}:{select}:second-pass",
+                              f"second pass (after 11 s of silence), row {i}: request {row[1]} recorded reply {row[2]} but the database-backed ECU answered "
+                              f"{replies2[i].hex() if isinstance(replies2[i], bytes) else replies2[i]} (first pass was exact)")
+                    break
         res["trace"] = [[r[1], r[2]] for r in rows] + [[x.hex() if isinstance(x, bytes) else x for x in replies]]
         comp = []
         for s in shape:
